@@ -112,6 +112,16 @@ def gen_case(rng, i, tier):
     roles = list(pos) + [f"dim:{a}:{p}" for a, ps in pos.items() for p in ps] + ["E0", "E1", "V0", "D0", "D1", "TD", "TN", "F"]
     roles += [f"M{k}" for k in range(6)]
     ren, cats = hostile_naming(rng, roles, avoid=XARRAY_SQUEEZE_CANNOT if kind == "faces" else ())
+    axis_roles = [r for r in roles if r in pos]
+    if len(axis_roles) >= 2 and rng.random() < 0.2:
+        # axis names that differ only in case (upper / lower / mixed) are different names
+        base = rng.choice(["x", "ab", "lon", "eta_rho"])
+        variants = [base, base.upper(), base.capitalize(), base[:-1] + base[-1].upper()]
+        variants = [v for k, v in enumerate(variants) if v not in variants[:k] and v not in ren.values()]
+        if len(variants) >= len(axis_roles):
+            for r, v in zip(axis_roles, rng.sample(variants, len(axis_roles))):
+                ren[r] = v
+            cats = sorted(set(cats) | {"case-variants"})
     if kind == "ufunc" and rng.random() < 0.4:
         # dummy names live in a namespace of their own: they may be spelled like the real axes, in any order
         axs = [ren[a] for a in pos]
